@@ -6,24 +6,34 @@ Trace == ndJsonDeserialize("trace.ndjson")
 VARIABLES l, viol, hist, sel, rep, cap,
           reported,   \* inferred: reporters that have had a report accepted in this history
           lastCount,  \* inferred: selector -> [rep, t] of the last accepted report that counted its stake
-          removed     \* inferred: selectors taken out of their selection by RemoveSelector in this history
-tvars == <<l, viol, hist, sel, rep, cap, reported, lastCount, removed>>
-Init == l = 1 /\ viol = {} /\ hist = 0 /\ sel = <<>> /\ rep = <<>> /\ cap = 0 /\ reported = {} /\ lastCount = <<>> /\ removed = {}
-
+          removed,    \* inferred: selectors taken out of their selection by RemoveSelector in this history
+          window      \* inferred: the shortest unbonding period that has been in force in this history (ms)
+tvars == <<l, viol, hist, sel, rep, cap, reported, lastCount, removed, window>>
 UnbondingMs == N(1814400000)   \* 21 days: the window inside which stake must not serve two reporters
+Init == l = 1 /\ viol = {} /\ hist = 0 /\ sel = <<>> /\ rep = <<>> /\ cap = 0 /\ reported = {} /\ lastCount = <<>> /\ removed = {} /\ window = UnbondingMs
+
 
 CountedSels(e) == { e.seltok[i].sel : i \in Counted(e.seltok, e.t) }
 
 CheckSubmit(e) ==
   IF ~e.ok THEN {}
-  ELSE (IF e.power = PowerOf(e.seltok, e.t) THEN {} ELSE {"PowerEqualsBondedStakeOfActiveSelectors"})
+  ELSE (IF e.power = PowerOf(e.seltok, e.t) THEN {}
+        \* Dev_F27 (open): for a selector with more delegations than the validator cap the stake is summed over the staking
+        \* module's "bonded validators by power" walk, which reaches at most cap entries of the power index; a validator that
+        \* is bonded at this moment but outside that walk (the index follows delegations and parameter changes at once, the
+        \* status only at the end of the block) is left out.  Identity: the recorded power is exactly that sum.
+        ELSE IF "F-27" \in KNOWN /\ e.power = (NSum([i \in Counted(e.seltok, e.t) |-> IF e.seltok[i].cnt > e.seltok[i].maxvals /\ ~e.seltok[i].intop THEN Zero ELSE e.seltok[i].tok], Counted(e.seltok, e.t)) // PowerReduction)
+        THEN {"KNOWN:F-27"}
+        ELSE {"PowerEqualsBondedStakeOfActiveSelectors"})
        \cup (IF "origins" \in DOMAIN e /\ OriginsMatch(e.seltok, e.t, e.origins.origins) /\ e.origins.total.mag = StakeOf(e.seltok, e.t)
-             THEN {} ELSE {"StoredOriginsAreTheCountedStake"})
+             THEN {}
+             ELSE IF "F-27" \in KNOWN /\ (\E i \in Counted(e.seltok, e.t) : e.seltok[i].cnt > e.seltok[i].maxvals /\ ~e.seltok[i].intop) THEN {"KNOWN:F-27"}
+             ELSE {"StoredOriginsAreTheCountedStake"})
        \cup (IF e.who \in DOMAIN rep /\ rep[e.who].jailed THEN {"JailedReporterCannotReport"} ELSE {})
        \* Dev_F25 (open): RemoveSelector deletes the selection record, and with it the only trace of the stake having been
        \* counted; the removed account can join or become a reporter at once.  Identity: every offending selector was removed
        \* by RemoveSelector earlier in this history.
-       \cup (LET Off == { s \in CountedSels(e) : s \in DOMAIN lastCount /\ lastCount[s].rep # e.who /\ (e.t -- lastCount[s].t) \prec UnbondingMs } IN
+       \cup (LET Off == { s \in CountedSels(e) : s \in DOMAIN lastCount /\ lastCount[s].rep # e.who /\ (e.t -- lastCount[s].t) \prec window } IN
              IF Off = {} THEN {}
              ELSE IF "F-25" \in KNOWN /\ Off \subseteq removed THEN {"KNOWN:F-25"}
              ELSE {"SameStakeServesTwoReportersWithinWindow"})
@@ -96,6 +106,7 @@ Step ==
                         THEN [s \in (DOMAIN lastCount) \cup CountedSels(e) |->
                                 IF s \in CountedSels(e) THEN [rep |-> e.who, t |-> e.t] ELSE lastCount[s]]
                         ELSE lastCount
+        /\ window' = IF reset THEN UnbondingMs ELSE IF e.ev = "UpdateStakingParams" /\ e.ok THEN NMin(window, e.unbondms) ELSE window
         /\ removed' = IF reset THEN {} ELSE IF e.ev = "RemoveSelector" /\ e.ok THEN removed \cup {e.sel} ELSE removed
         /\ viol' = IF reset THEN viol ELSE AddViol(viol, l, Check(e))
         /\ l' = l + 1
